@@ -240,6 +240,12 @@ def tasks(ctx):
     ts.append(Task(ac.A + "WriteNR52", ac.A + "WriteNR52", overrides=ac.OV, keep=keep_labels({"clock"}, kinds=("requires",))))
     # audio.EndMachineCycle above uses tickClock through its contract: one clock, one sample per multiple of 95 - discharged here
     ts.append(Task(ac.A + "tickClock[outputs]", ac.A + "tickClock", variant="outputs", overrides=both, keep=keep_labels({"ticks", "sample", "sequencer"}, kinds=("requires",))))
+    # the cartridge clock's sub-second count is advanced by rtc.tick and restarted by a seconds-register write only - and such
+    # a write reaches the clock only through an enabled MBC3 window (the clock contracts of C10)
+    import props.C10 as c10
+    import props.mem_common as memc
+    ts += [Task(f, f) for f in c10.FUNCS if f != "(*memory.rtc).tick"]
+    ts.extend(memc.c10_tasks(ctx))
     # DMA progress restarts from the set-up cycle on every FF46 write
     ts.append(Task("(*oam.OAM).startDMA", "(*oam.OAM).startDMA"))
     ts.append(Task("(*oam.OAM).WriteDMA", "(*oam.OAM).WriteDMA"))
